@@ -219,7 +219,16 @@ def run(ctx):
         raise vlib.Infra("TraceQE self-test: an accepted bound-bit change was not rejected")
     ctx.coverage.update(qe_identity_cases=len(qe_ev), qe_bound_bit_changes=sum(1 for e in qe_ev if e["masked"] and e["field"] != "isvsvn"),
                         qe_unbound_bit_changes=sum(1 for e in qe_ev if not e["masked"] and e["field"] != "none"), qe_selftest="Q1 rejected")
-    ctx.log("QE identity: %d cases, %d rejected segments" % (len(qe_ev), len(rejq)))
+    tcb_ev = [json.loads(x) for x in qe_lines if '"ev":"tcb"' in x]
+    if any(e["variant"] == "genuine" and not e["accepted"] for e in tcb_ev) or not any(not e["truth"] for e in tcb_ev):
+        raise vlib.Infra("attest-qe: TCB level leg out of step with the vectors (genuine platform rejected, or no unacceptable variant)")
+    tcb_drift = sum(1 for e in tcb_ev if e["truth"] and not e["accepted"])
+    if tcb_drift:
+        line = "MODEL-DRIFT property=C18 %d platforms at an acceptable TCB level were rejected" % tcb_drift
+        ctx.drift.append(line)
+        print(line)
+    ctx.coverage.update(tcb_level_cases=len(tcb_ev), tcb_level_unacceptable=sum(1 for e in tcb_ev if not e["truth"]))
+    ctx.log("QE identity: %d cases, TCB levels: %d cases, %d rejected segments" % (len(qe_ev), len(tcb_ev), len(rejq)))
 
     # 2. scenario table, generation, replay -----------------------------------------------------------
     vps = "30,500,2000" if q else "0,1,30,90,500,2000,65535"
